@@ -554,4 +554,81 @@ theorem op_valid (opsets : List Req) (d : String) (o v np : Nat) (c : Bool) (sub
     simp [entryValid, PNode.kind, hf, ht, hacc]
 
 
+theorem inline_valid (opsets imps : List Req) (hd : Bool) (np : Nat) (c : Bool) (subs : List PGraph) (i : Nat)
+    (hdom : Dominates opsets (kindReq genFacts (.inline imps hd))) :
+    entryValid opsets ⟨opsets, .mk (.inline imps hd) np c subs i,
+      adaptBestEffort genFacts opsets (.mk (.inline imps hd) np c subs i)⟩ = true := by
+  obtain ⟨t, ht, _⟩ := hdom ("", genFacts.minOpset) (by simp [kindReq])
+  have ht' : lookup "" opsets = some t := by simpa [fold] using ht
+  cases hd with
+  | false => simp [entryValid, adaptBestEffort, PNode.kind, ht']
+  | true =>
+    by_cases hs : inlineSource imps t = t
+    · simp [entryValid, adaptBestEffort, PNode.kind, ht', hs]
+    · simp [entryValid, adaptBestEffort, PNode.kind, ht', hs]
+
+/-! ## names -/
+
+def nameNode : Name → Option Nat
+  | .out n _ => some n
+  | .fresh n _ => some n
+  | .bare _ => none
+
+theorem entryNames_node (nOut : Nat → Nat) (conv : Nat → List Nat) (e : Entry) :
+    ∀ nm ∈ entryNames true nOut conv e, nameNode nm = some e.node.id := by
+  intro nm h
+  unfold entryNames at h
+  split at h
+  · simp only [List.mem_append, List.mem_map, if_true] at h
+    rcases h with ⟨k, _, rfl⟩ | ⟨k, _, rfl⟩ <;> rfl
+  · simp only [List.mem_map] at h
+    obtain ⟨k, _, rfl⟩ := h
+    rfl
+
+theorem nodup_map_inj {α β : Type} {f : α → β} (hf : ∀ a b, f a = f b → a = b) {l : List α} (h : l.Nodup) :
+    (l.map f).Nodup := by
+  induction l with
+  | nil => simp
+  | cons x xs ih =>
+    rw [List.nodup_cons] at h
+    rw [List.map_cons, List.nodup_cons]
+    refine ⟨?_, ih h.2⟩
+    intro hm
+    obtain ⟨y, hy, he⟩ := List.mem_map.mp hm
+    exact h.1 (hf _ _ he ▸ hy)
+
+theorem entryNames_nodup (nOut : Nat → Nat) (conv : Nat → List Nat) (e : Entry) (hconv : ∀ n, (conv n).Nodup) :
+    (entryNames true nOut conv e).Nodup := by
+  have hown : ((List.range (nOut e.node.id)).map (Name.out e.node.id)).Nodup :=
+    nodup_map_inj (fun a b h => by injection h) List.nodup_range
+  unfold entryNames
+  split
+  · simp only [if_true]
+    rw [List.nodup_append]
+    refine ⟨hown, nodup_map_inj (fun a b h => by injection h) (hconv _), ?_⟩
+    intro a ha b hb hab
+    obtain ⟨k, _, rfl⟩ := List.mem_map.mp ha
+    obtain ⟨k', _, rfl⟩ := List.mem_map.mp hb
+    cases hab
+  · exact hown
+
+theorem allNames_nodup (nOut : Nat → Nat) (conv : Nat → List Nat) (es : List Entry)
+    (hid : (es.map (fun e => e.node.id)).Nodup) (hconv : ∀ n, (conv n).Nodup) :
+    (allNames true nOut conv es).Nodup := by
+  induction es with
+  | nil => simp [allNames]
+  | cons e es ih =>
+    rw [List.map_cons, List.nodup_cons] at hid
+    unfold allNames
+    rw [List.flatMap_cons, List.nodup_append]
+    refine ⟨entryNames_nodup nOut conv e hconv, ih hid.2, ?_⟩
+    intro a ha b hb hab
+    subst hab
+    have h1 := entryNames_node nOut conv e a ha
+    obtain ⟨e', he', hb'⟩ := List.mem_flatMap.mp hb
+    have h2 := entryNames_node nOut conv e' a hb'
+    rw [h1] at h2
+    have : e.node.id = e'.node.id := Option.some.inj h2
+    exact hid.1 (List.mem_map.mpr ⟨e', he', this.symm⟩)
+
 end Opset
